@@ -507,6 +507,12 @@ def gen_scenarios(ctx):
         base = [1] + rng.sample(range(2, 9), k - 1)
         return base
 
+    # --- the idle-worker rule at equality: ns = NBATCH + m*stride exactly, workers starting past the end ---
+    nb0 = rng.choice([2304, 3000, 4096])
+    scn(nb0, nb0, [1, 2, rng.randrange(3, 9)], ns2add=rng.choice([0, 3]))
+    m0 = rng.choice([1, 2])
+    scn(4096 + m0 * 2048, 4096, [1, rng.randrange(5, 9), 16], ns2add=rng.choice([0, 3]),
+        append={"P": 7, "nbatch": 4096})
     # --- light stream: 8 channels, CAR: many (ns, nbatch, P) positions ---
     n_light = 60 if ctx.thorough() else 14
     nbs = [2304, 3000, 4096, 2560, 6556, 2100, 3333]
@@ -597,8 +603,9 @@ def check_run(ctx, scn, obs, data, ref, ref_prev, tags_base, cases, stats, nbatc
     if exp.shape[0] != ns:
         fail("reference: documented rule does not tile the recording")
     elif not rows_close(rows[:ns], exp, ncv):
-        d = np.abs(rows[:ns, :min(ncv, ncout)].astype(np.float64) - exp[:, :min(ncv, ncout)].astype(np.float64)).max(axis=1)
-        badrows = np.flatnonzero(d > 1)
+        nv = min(ncv, ncout)
+        d = np.abs(rows[:ns, :nv].astype(np.float64) - exp[:, :nv].astype(np.float64)).max(axis=1)
+        badrows = np.flatnonzero((d > 1) | np.any(rows[:ns, nv:] != exp[:, nv:], axis=1))
         fail("batchwise: output differs from batch-wise in-memory destriping at %d rows (first %s)"
              % (badrows.size, badrows[:3].tolist()))
     else:
